@@ -26,7 +26,7 @@ LEVEL = "exploration"
 
 
 def plan(tier):
-    return {"runs": 1400 if tier == "quick" else 40000, "timeout_s": 1500 if tier == "quick" else 6 * 3600}
+    return {"runs": 1400 if tier == "quick" else 24000, "timeout_s": 1500 if tier == "quick" else 6 * 3600}
 
 
 def describe():
